@@ -438,3 +438,5 @@ func pickStr(r *rand.Rand, xs ...string) string { return xs[r.Intn(len(xs))] }
 func chance(r *rand.Rand, pct int) bool { return r.Intn(100) < pct }
 
 func bytesReader(b []byte) *strings.Reader { return strings.NewReader(string(b)) }
+
+func yield() { runtime.Gosched() }
